@@ -19,10 +19,11 @@ import (
 )
 
 type c02Gen struct {
-	c  *Ctx
-	r  *rand.Rand
-	g  *nbtGen // trees for carriers
-	gf *nbtGen // float-free trees (StringifiedMessage)
+	structs []string // struct descriptions generated so far: reused as field types (the same type at sibling places)
+	c       *Ctx
+	r       *rand.Rand
+	g       *nbtGen // trees for carriers
+	gf      *nbtGen // float-free trees (StringifiedMessage)
 }
 
 var c02Leaf = []string{"bool", "i8", "i16", "i32", "i64", "u8", "u16", "u32", "u64", "f32", "f64", "str", "str", "i32", "i64", "u8"}
@@ -55,7 +56,15 @@ func (cg *c02Gen) typeDesc(depth int) string {
 	case x < 80:
 		return "ptr<" + cg.typeDesc(depth-1) + ">"
 	default:
-		return cg.structDesc(depth)
+		// a struct type generated earlier, again: the same type in sibling fields / in two branches (diamonds)
+		if len(cg.structs) > 0 && r.Intn(3) == 0 {
+			return cg.structs[r.Intn(len(cg.structs))]
+		}
+		d := cg.structDesc(depth)
+		if len(cg.structs) < 40 {
+			cg.structs = append(cg.structs, d)
+		}
+		return d
 	}
 }
 
@@ -476,6 +485,166 @@ func c02GenDec(c *Ctx, cg *c02Gen, descs []string, types []reflect.Type, rounds,
 	}
 }
 
+// c02LongCases: typed round trips (under the op name of the property that runs them) of slices, arrays and maps
+// with element counts around 64, 128, 256, 1024, 4096 and far above: the three typed-array kinds for every element
+// type that maps to them, lists of other element types, a slice inside a struct field, a map with that many keys.
+func c02LongCases(c *Ctx, cg *c02Gen, op string) {
+	r := c.R
+	elemText := func(e string) string {
+		switch e {
+		case "bool":
+			return strconv.Itoa(r.Intn(2))
+		case "i8", "u8":
+			return fmt.Sprintf("%02x", cg.g.num(8))
+		case "i16", "u16":
+			return fmt.Sprintf("%04x", cg.g.num(16))
+		case "i32", "u32":
+			return fmt.Sprintf("%08x", cg.g.num(32))
+		case "i64", "u64":
+			return fmt.Sprintf("%016x", cg.g.num(64))
+		case "f32":
+			return fmt.Sprintf("%08x", cg.g.float(32))
+		case "f64":
+			return fmt.Sprintf("%016x", cg.g.float(64))
+		default: // str
+			return "'" + hex.EncodeToString(cg.g.bytesOf(r.Intn(3)))
+		}
+	}
+	seq := func(e string, n int) string {
+		var sb strings.Builder
+		sb.WriteByte('[')
+		for i := 0; i < n; i++ {
+			if i > 0 {
+				sb.WriteByte(',')
+			}
+			sb.WriteString(elemText(e))
+		}
+		sb.WriteByte(']')
+		return sb.String()
+	}
+	k := 0
+	emit := func(tdesc, vdesc string) {
+		k++
+		c02RTop(c, op, []string{"file", "net"}[k%2], []string{"val", "ptr"}[(k/2)%2], nil, tdesc, vdesc)
+	}
+	elems := []string{"i8", "u8", "bool", "i32", "u32", "i64", "u64", "i16", "u16", "f32", "f64", "str"}
+	largeElem := elems[r.Intn(7)] // one of the typed-array element kinds gets a size above 4000 (thorough: all of them)
+	for _, e := range elems {
+		for _, n := range nbtSizes(c, c.N(1, 8), e == largeElem && (op == "c02.rt" || k%2 == 0) || (c.Thorough() && e != "str")) {
+			if op == "c02.rt" && n == 20000 && e != largeElem {
+				continue // (C02 thorough: the 20000 for one element kind; the C01 run of the same tier has it for a quarter of them)
+			}
+			emit("sl<"+e+">", seq(e, n))
+			if n <= 1100 || c.Thorough() && (op != "c02.rt" || k%2 == 0) || k%2 == 0 && op == "c02.rt" && n <= 2100 {
+				emit(fmt.Sprintf("ar<%d;%s>", n, e), seq(e, n))
+			}
+		}
+	}
+	// names: root names, map keys and field names of 31..33, 62..65, 127..129 bytes
+	for _, n := range []int{31, 32, 33, 62, 63, 64, 65, 127, 128, 129, 255, 256, 257} {
+		nm := cg.g.bytesOf(n)
+		k++
+		c02RTop(c, op, "file", []string{"val", "ptr"}[k%2], nm, "i32", "00000007")
+		c02RTop(c, op, "file", "val", nm, "map<i8>", "{"+hex.EncodeToString(cg.g.bytesOf(n))+":05,"+hex.EncodeToString(nm)+":06}")
+		fieldTag := strings.Repeat("n", n)
+		c02RTop(c, op, []string{"file", "net"}[k%2], "val", nil,
+			"st<>{41/e/"+hex.EncodeToString([]byte(fieldTag))+"///i16|42/e//"+hex.EncodeToString([]byte(strings.Repeat("k", n)))+"//str}", "(7fff;'6162)")
+	}
+	for _, n := range nbtSizes(c, c.N(1, 6), false) {
+		if n > 1100 && !c.Thorough() {
+			n = nbtSmallSizes[r.Intn(len(nbtSmallSizes))] // three slices / n keys: the case would take the models a quarter of a minute
+		}
+		emit("st<>{41/e/61///sl<i32>|42/e////sl<u8>|43/e/632c6c697374///sl<i64>}", "("+seq("i32", n)+";"+seq("u8", n)+";"+seq("i64", n)+")")
+		emit("any", "!sl<i32>!"+seq("i32", n))
+		var sb strings.Builder
+		sb.WriteByte('{')
+		for i := 0; i < n; i++ {
+			if i > 0 {
+				sb.WriteByte(',')
+			}
+			sb.WriteString(hex.EncodeToString([]byte("k"+strconv.Itoa(i))) + ":" + elemText("i16"))
+		}
+		sb.WriteByte('}')
+		emit("map<i16>", sb.String())
+	}
+}
+
+// c02StagedCases: documents with SEVERAL byte arrays that the encoder has to convert element by element ([N]int8,
+// [N]byte held by value, []bool, elements behind interfaces) — the first one larger and without zero bytes, a later
+// one with zeros / false — inside one document and over several calls of one Encoder; and histories of Marshal calls
+// whose results are all held (see c02Hist). An encoder that stages such arrays in a buffer it keeps, or a Marshal
+// that hands out a buffer it keeps, shows here.
+func c02StagedCases(c *Ctx, cg *c02Gen, op string) {
+	r := c.R
+	nz := func(n int) string { // n non-zero bytes, non-periodic
+		var sb strings.Builder
+		sb.WriteByte('[')
+		for i := 0; i < n; i++ {
+			if i > 0 {
+				sb.WriteByte(',')
+			}
+			fmt.Fprintf(&sb, "%02x", 1+r.Intn(255))
+		}
+		sb.WriteByte(']')
+		return sb.String()
+	}
+	bools := func(n int, iface bool) string {
+		var sb strings.Builder
+		sb.WriteByte('[')
+		for i := 0; i < n; i++ {
+			if i > 0 {
+				sb.WriteByte(',')
+			}
+			if iface {
+				sb.WriteString("!bool!")
+			}
+			sb.WriteString(strconv.Itoa(r.Intn(3) / 2)) // mostly false
+		}
+		sb.WriteByte(']')
+		return sb.String()
+	}
+	zeros := func(n int) string { return "[" + strings.TrimSuffix(strings.Repeat("!i8!00,", n), ",") + "]" }
+	k := 0
+	one := func(tdesc, vdesc string) {
+		k++
+		c02RTop(c, op, []string{"net", "file"}[k%2], []string{"val", "ptr"}[(k/2)%2], nil, tdesc, vdesc)
+	}
+	for rep := 0; rep < c.N(4, 60); rep++ {
+		a := 4 + r.Intn(40)
+		b := 1 + r.Intn(a)
+		one(fmt.Sprintf("st<>{41/e////ar<%d;i8>|42/e////sl<bool>}", a), "("+nz(a)+";"+bools(b, false)+")")
+		one(fmt.Sprintf("st<>{41/e////ar<%d;u8>|42/e////sl<any>}", a), "("+nz(a)+";"+bools(b, true)+")")
+		one(fmt.Sprintf("st<>{41/e////ar<%d;u8>|42/e////sl<any>|43/e////ar<%d;i8>}", a, b), "("+nz(a)+";"+zeros(b)+";"+nz(b)+")")
+		one("st<>{41/e////sl<bool>|42/e////sl<bool>|43/e////sl<any>}", "("+strings.ReplaceAll(bools(a, false), "0", "1")+";"+bools(b, false)+";"+bools(b, true)+")")
+		one("sl<any>", fmt.Sprintf("[!ar<%d;i8>!%s,!sl<any>!%s,!sl<bool>!%s]", a, nz(a), bools(b, true), bools(b, false)))
+		one(fmt.Sprintf("sl<ar<%d;i8>>", a), "["+nz(a)+","+strings.ReplaceAll(nz(a), "f", "0")+"]")
+	}
+	// one Encoder (and Marshal) over several calls: a large staged array first, then arrays with zeros / false
+	apis := []string{"encshared", "marshal", "enc"}
+	for rep := 0; rep < c.N(6, 80); rep++ {
+		a := 8 + r.Intn(60)
+		b := 1 + r.Intn(a)
+		// (under C01's op name no interface slices in the histories: their round trip is C02's known finding
+		// C02.any-slice-array, which C01 does not list; the single documents above have them)
+		iface := op == "c02.rt"
+		anyT := map[bool]string{true: "sl<any>", false: "sl<bool>"}[iface]
+		second := zeros(b)
+		if !iface {
+			second = bools(b, false)
+		}
+		steps := [][2]string{
+			{fmt.Sprintf("ar<%d;i8>", a), nz(a)},
+			{anyT, bools(b, iface)},
+			{"sl<bool>", bools(b, false)},
+			{"sl<uint>", "[0000000000000001]"}, // refused by the encoder: a failed call in between
+			{fmt.Sprintf("st<>{41/e////ar<%d;u8>|42/e////%s}", a, anyT), "(" + nz(a) + ";" + second + ")"},
+			{anyT, bools(1+r.Intn(b), iface)},
+		}
+		r.Shuffle(3, func(i, j int) { steps[1+i], steps[1+j] = steps[1+j], steps[1+i] })
+		c02Hist(c, apis[rep%3], []string{"val", "ptr"}[(rep/3)%2], steps[:3+r.Intn(4)])
+	}
+}
+
 func genC02(c *Ctx) {
 	g := &nbtGen{r: c.R}
 	cg := &c02Gen{c: c, r: c.R, g: g, gf: &nbtGen{r: c.R, noFloat: true}}
@@ -557,6 +726,73 @@ func genC02(c *Ctx) {
 		}
 		if t.Kind() == reflect.Struct {
 			c02FieldRead(c, i%2 == 0, descs[i], []byte{10, 1, 0, 3, 'z', 'z', 'z', 5, 0})
+		}
+	}
+	// --- long slices, arrays and maps (counts around the block sizes 64 … 4096 and far above) ---
+	c02LongCases(c, cg, "c02.rt")
+	for _, tag := range []byte{7, 11, 12, 9} {
+		for _, n := range nbtSizes(c, c.N(1, 6), tag == 12 || c.Thorough()) {
+			nd := g.bigNode(tag, 3, n)
+			for _, car := range []string{"raw", "dyn"} {
+				doc, _ := nd.doc("net", nil)
+				c02Re(c, "net", car, doc)
+				if n <= 2100 || c.Thorough() || car == "dyn" {
+					fdoc, _ := (&nbtNode{tag: 10, keys: [][]byte{[]byte("r")}, vals: []*nbtNode{nd}}).doc("file", []byte("n"))
+					c02Re(c, "file", "st<>{52/e/72///"+car+"}", fdoc)
+				}
+			}
+		}
+	}
+	// --- StringifiedMessage: long arrays through the binary -> text -> binary path (block seams at 4096 …) ---
+	for _, tag := range []byte{7, 11, 12} {
+		// (the text path of the models is the slowest one: 4097 bytes take 2 s, 4097 longs 9 s — quick tier: the byte
+		// array gets one block of 4096 and a bit, the others stop at 3000 elements, i.e. 12000 / 24000 bytes)
+		sizes := nbtSizes(c, c.N(1, 4), c.Thorough())
+		if tag == 7 {
+			sizes = append(sizes, 4097)
+		} else if !c.Thorough() {
+			sizes = append(sizes, []int{1500, 2047, 2049, 3000}[c.R.Intn(4)])
+		}
+		for _, n := range sizes {
+			if n > 8193 && tag != 7 {
+				n = 8193 // 20000 ints / longs through the text path: minutes
+			}
+			nd := g.bigNode(tag, 0, n)
+			doc, _ := nd.doc("net", nil)
+			c02Re(c, "net", "snbt", doc)
+			if n <= 1100 {
+				fdoc, _ := (&nbtNode{tag: 10, keys: [][]byte{[]byte("s")}, vals: []*nbtNode{nd}}).doc("file", []byte("n"))
+				c02Re(c, "file", "st<>{53/e/73///snbt}", fdoc)
+				c02Re(c, "file", "snbt", fdoc)
+			}
+		}
+	}
+	for _, n := range nbtSizes(c, c.N(1, 4), false) {
+		if n > 1100 {
+			n = 129
+		}
+		doc, _ := g.bigNode(9, []byte{1, 2, 3, 4}[n%4], n).doc("net", nil)
+		c02Re(c, "net", "snbt", doc)
+	}
+	// --- several staged byte arrays in one document / over one Encoder; Marshal histories ---
+	c02StagedCases(c, cg, "c02.rt")
+	// --- diamonds: one struct type at two always-written places of another (Box{Min, Max Pos}); a nil pointer to
+	// such a type — at the root, in a field, in a list, in a map — is written as the zero value like any other ---
+	pos := "st<>{58/e////f64|59/e////f64}"
+	box := "st<>{4d696e/e////" + pos + "|4d6178/e////" + pos + "}"
+	deep := "st<>{41/e////" + box + "|42/e////sl<" + pos + ">|43/e////ptr<" + pos + ">|44/e////" + box + "}"
+	for _, tv := range [][2]string{
+		{"ptr<" + box + ">", "~"}, {"ptr<" + deep + ">", "~"}, {"ptr<ptr<" + box + ">>", "&~"},
+		{"st<>{42/e////ptr<" + box + ">|4e/e////i32}", "(~;00000007)"},
+		{"st<>{42/e/622c6f6d6974656d707479///ptr<" + box + ">|43/e////ptr<" + deep + ">}", "(~;~)"},
+		{"sl<ptr<" + box + ">>", "[~,&((3ff0000000000000;0000000000000000);(0000000000000000;4000000000000000)),~]"},
+		{"map<ptr<" + box + ">>", "{6b:~}"},
+		{"ar<2;ptr<" + deep + ">>", "[~,~]"},
+		{box, "((3ff0000000000000;8000000000000000);(7ff8000000000001;0000000000000000))"},
+	} {
+		for _, how := range []string{"val", "ptr"} {
+			c02RT(c, "net", how, nil, tv[0], tv[1])
+			c02RT(c, "file", how, []byte("d"), tv[0], tv[1])
 		}
 	}
 	// --- outside the model's universe: recursive pointer types, maps with other keys than strings ---
